@@ -1457,6 +1457,50 @@ Tokens""")]),
                     ),""", """                        lambda line: not line.lstrip().startswith(":"),
                         doc_lines[1:] if len(doc_lines) > 1 else (),
                     ),""")]),
+    # ---- DET-1 with reaching definitions (C12, C07)
+    dict(id="det1-set-on-one-path", kind=B, props=["C12", "C07"], expect="DET-1", edits=[("parser_utils.py",
+         """        for name in tuple(
+            filter(lambda key: key not in target_params, other_params.keys())
+        ):""", """        missing = [key for key in other_params if key not in target_params]
+        if len(missing) > 1:
+            missing = set(missing)
+        for name in missing:""")]),
+    dict(id="det1-neutral-set-then-ordered-again", kind=N, props=["C12", "C07"], expect="silent", edits=[("parser_utils.py",
+         """        for name in tuple(
+            filter(lambda key: key not in target_params, other_params.keys())
+        ):""", """        missing = set(other_params) - set(target_params)
+        missing = [key for key in other_params if key in missing]
+        for name in missing:""")]),
+    # ---- VISIT-7 (C11, C15)
+    dict(id="visit7-function-handler-descends", kind=B, props=["C11", "C15"], expect="VISIT-7", edits=[("ast_utils.py",
+         """                        self.replaced = True
+                        break
+
+        return node
+
+
+def emit_ann_assign(node):""", """                        self.replaced = True
+                        break
+
+        return NodeTransformer.generic_visit(self, node)
+
+
+def emit_ann_assign(node):""")]),
+    dict(id="visit7-neutral-named-result", kind=N, props=["C11", "C15"], expect="silent", edits=[("ast_utils.py",
+         """                        self.replaced = True
+                        break
+
+        return node
+
+
+def emit_ann_assign(node):""", """                        self.replaced = True
+                        break
+
+        visited = node
+        return visited
+
+
+def emit_ann_assign(node):""")]),
     # ---- PARAM-KEPT (C07, C03)
     dict(id="paramkept-return-type-popped-in-merge", kind=B, props=["C07", "C03"], expect="PARAM-KEPT", edits=[("parser_utils.py",
          """    if "return_type" not in (target.get("returns") or iter(())):""",
